@@ -10,8 +10,16 @@
    proper divisor of the previous one, whose norm is at most half as large. *)
 From Coq Require Import ZArith NArith List Bool Arith Lia Ring.
 Require Import Yui.Base.Ring Yui.Base.MatF Yui.Base.MatL Yui.Model.Snf Yui.Proofs.C09Mat Yui.Proofs.C09Inv
-  Yui.Proofs.C09Run Yui.Proofs.C09Exit Yui.Proofs.C09Diag Yui.Proofs.C09Laws Yui.Proofs.C09Term.
+  Yui.Proofs.C09Run Yui.Proofs.C09Exit Yui.Proofs.C09Diag Yui.Proofs.C09Laws Yui.Proofs.C09Term
+  Yui.Proofs.C09Total.
 Import ListNotations.
+
+Lemma filter_none_nil {X : Type} (p : X -> bool) (l : list X) :
+  (forall y, In y l -> p y = false) -> filter p l = [].
+Proof.
+  induction l as [|z l IH]; intros G; [reflexivity|]. cbn [filter].
+  rewrite (G z (or_introl eq_refl)). apply IH. intros y Hy. apply G. now right.
+Qed.
 
 Lemma filter_at_most_one {X : Type} (p : X -> bool) (d : X) (l : list X) : forall i,
   (forall k, k < length l -> k <> i -> p (nth k l d) = false) -> length (filter p l) <= 1.
@@ -19,15 +27,10 @@ Proof.
   induction l as [|x l IH]; intros i H; cbn [filter]; [cbn; lia|].
   destruct i as [|i].
   - assert (E : filter p l = []).
-    { clear IH. assert (G : forall y, In y l -> p y = false).
-      { intros y Hy. destruct (In_nth l y d Hy) as [k [Hk <-]]. apply (H (S k)); cbn; lia. }
-      induction l as [|z l IHl]; [reflexivity|]. cbn [filter]. rewrite (G z (or_introl eq_refl)).
-      apply IHl; [|intros; apply G; now right].
-      intros k Hk Hne. destruct k as [|k]; [lia|]. destruct k as [|k].
-      - apply (H 1); cbn; lia.
-      - apply (H (S (S (S k)))); cbn in *; lia. }
+    { apply filter_none_nil. intros y Hy. destruct (In_nth l y d Hy) as [k [Hk <-]].
+      apply (H (S k)); cbn; lia. }
     rewrite E. destruct (p x); cbn; lia.
-  - rewrite (H 0) by (cbn; lia). cbn [nth]. apply (IH i). intros k Hk Hne. apply (H (S k)); cbn; lia.
+  - assert (E0 : p x = false) by (apply (H 0); cbn; lia). rewrite E0. apply (IH i). intros k Hk Hne. apply (H (S k)); cbn; lia.
 Qed.
 
 (* a fold over an index range that never fails and carries an invariant *)
@@ -77,9 +80,9 @@ Section Elim.
   Qed.
 
   Lemma nonunit_mul_l c a : nonunit c -> nonunit (a * c).
-  Proof. intros Hc z Hz. apply (Hc (a * z)). rewrite <- Hz. ring. Qed.
+  Proof. intros Hc z Hz. apply (Hc (a * z)). fold o. transitivity (a * c * z); [ring|exact Hz]. Qed.
   Lemma nonunit_mul_r c a : nonunit c -> nonunit (c * a).
-  Proof. intros Hc z Hz. apply (Hc (a * z)). rewrite <- Hz. ring. Qed.
+  Proof. intros Hc z Hz. apply (Hc (a * z)). fold o. transitivity (c * a * z); [ring|exact Hz]. Qed.
 
   (* SnfCalc::gcdx on a non-zero pivot: total; t = 0 unless the cofactor x/d is a non-unit *)
   Lemma snf_gcdx_cases x y :
@@ -120,11 +123,12 @@ Section Elim.
       intros Hk (W & Hp & [c Hc] & Hcl & Hfl). unfold elim_col_body. cbv zeta.
       rewrite !mget_lget. fold o.
       destruct (Nat.eqb_spec k i) as [->|Hki]; cbn [orb].
-      { eexists. split; [reflexivity|]. repeat split; try assumption; [now exists c|].
+      { eexists. split; [reflexivity|]. unfold CI. cbv zeta.
+        split; [exact W|]. split; [exact Hp|]. split; [now exists c|]. split; [|exact Hfl].
         intros i1 H1 H2 H3. apply Hcl; lia. }
       destruct (ris_zero o (get (st_t (fst sm)) k i)) eqn:Z.
-      { apply (is_zero_true D SL) in Z. eexists. split; [reflexivity|].
-        repeat split; try assumption; [now exists c|].
+      { apply (is_zero_true D SL) in Z. eexists. split; [reflexivity|]. unfold CI. cbv zeta.
+        split; [exact W|]. split; [exact Hp|]. split; [now exists c|]. split; [|exact Hfl].
         intros i1 H1 H2 H3. destruct (Nat.eq_dec i1 k) as [->|]; [exact Z|apply Hcl; lia]. }
       set (T := st_t (fst sm)) in *. set (x := get T i i) in *. set (y := get T k i) in *.
       destruct (snf_gcdx_cases x y Hp) as (d & sx & ty & G & Hd & Hb & Hxa & Hyb & _).
@@ -161,7 +165,8 @@ Section Elim.
       - unfold CI. cbn [fst snd]. split; [exact W|]. split; [exact Hp|]. split; [exists 1; ring|].
         split; [intros; lia|reflexivity].
       - exists r1. split; [exact E|]. destruct HI as (W1 & Hp1 & Hc1 & Hcl & Hfl). cbn [Nat.add] in Hcl.
-        repeat split; try assumption. intros k Hk Hne. apply Hcl; assumption.
+        split; [exact W1|]. split; [exact Hp1|]. split; [exact Hc1|]. split; [|exact Hfl].
+        intros k Hk Hne. apply Hcl; assumption.
     Qed.
 
     (* ---------- eliminate_row at the pivot (i, i) ---------- *)
@@ -179,11 +184,12 @@ Section Elim.
       intros Hk (W & Hp & [c [Hc Hcc]] & Hcl & Hfl). unfold elim_row_body. cbv zeta.
       rewrite !mget_lget. fold o.
       destruct (Nat.eqb_spec k i) as [->|Hki]; cbn [orb].
-      { eexists. split; [reflexivity|]. repeat split; try assumption; [now exists c|].
+      { eexists. split; [reflexivity|]. unfold RI. cbv zeta.
+        split; [exact W|]. split; [exact Hp|]. split; [now exists c|]. split; [|exact Hfl].
         intros j1 H1 H2 H3. apply Hcl; lia. }
       destruct (ris_zero o (get (st_t (fst sm)) i k)) eqn:Z.
-      { apply (is_zero_true D SL) in Z. eexists. split; [reflexivity|].
-        repeat split; try assumption; [now exists c|].
+      { apply (is_zero_true D SL) in Z. eexists. split; [reflexivity|]. unfold RI. cbv zeta.
+        split; [exact W|]. split; [exact Hp|]. split; [now exists c|]. split; [|exact Hfl].
         intros j1 H1 H2 H3. destruct (Nat.eq_dec j1 k) as [->|]; [exact Z|apply Hcl; lia]. }
       set (T := st_t (fst sm)) in *. set (x := get T i i) in *. set (y := get T i k) in *.
       destruct (snf_gcdx_cases x y Hp) as (d & sx & ty & G & Hd & Hb & Hxa & Hyb & Hcase).
@@ -226,7 +232,8 @@ Section Elim.
       - unfold RI. cbn [fst snd]. split; [exact W|]. split; [exact Hp|].
         split; [exists 1; split; [ring|now left]|]. split; [intros; lia|reflexivity].
       - exists r2. split; [exact E|]. destruct HI as (W1 & Hp1 & Hc1 & Hcl & Hfl). cbn [Nat.add] in Hcl.
-        repeat split; try assumption. intros k Hk Hne. apply Hcl; assumption.
+        split; [exact W1|]. split; [exact Hp1|]. split; [exact Hc1|]. split; [|exact Hfl].
+        intros k Hk Hne. apply Hcl; assumption.
     Qed.
 
     (* ---------- the while loop ---------- *)
@@ -254,10 +261,10 @@ Section Elim.
           assert (Hlt : esize D (get (st_t (fst r2)) i i) < esize D (get (st_t s) i i)).
           { rewrite Hc0, Hc.
             replace (c0 * (c * get (st_t (fst r2)) i i)) with (c0 * c * get (st_t (fst r2)) i i) by ring.
-            apply (esize_lt D SL NL); [exact Hp2| |now apply nonunit_mul_l].
+            apply (esize_lt D NL); [exact Hp2| |now apply nonunit_mul_l].
             intros E. apply Hp. rewrite Hc0, Hc.
             replace (c0 * (c * get (st_t (fst r2)) i i)) with (c0 * c * get (st_t (fst r2)) i i) by ring.
-            rewrite E. ring. }
+            fold o in E. rewrite E. ring. }
           lia.
       - (* nothing was modified although the loop test held: impossible *)
         exfalso. apply orb_false_iff in Fl. destruct Fl as [F1 F2].
@@ -277,3 +284,153 @@ Section Elim.
     Qed.
   End AtPivot.
 End Elim.
+
+(* the preprocessing returns (C10: termination of lll_hnf; [True] without preprocessing) *)
+Definition pre_total {R : Type} (D : euc_dict R) : Prop :=
+  match ed_pre D with
+  | None => True
+  | Some f => forall m n b1 b2 (A : lmat R), wf m n A -> exists r, f m n b1 b2 A = Some r
+  end.
+
+Section RunTotal.
+  Context {R : Type} (D : euc_dict R) (SL : snf_laws D) (NL : norm_laws D) (GT : gcdx_total D).
+  Let o := ed_ring D.
+  Local Notation get := (lget o).
+  Local Notation dfl := (default_fuel D).
+
+  Variables m n : nat.
+  Variable A : lmat R.
+  Variables f1 f2 f3 f4 : bool.
+  Local Notation SI := (SInv D m n A f1 f2 f3 f4).
+
+  Lemma SI_wf s : SI s -> wf m n (st_t s).
+  Proof. intros (P & Pi & Q & Qi & W & _). exact W. Qed.
+
+  Lemma eliminate_step_total i j s :
+    i < m -> i <= j -> j < n -> SI s -> exists r, eliminate_step D dfl m n i j s = Some r.
+  Proof.
+    intros Hi Hij Hj HS. pose proof (SI_wf s HS) as W. unfold eliminate_step. cbv zeta.
+    destruct (select_pivot D m (st_t s) i j) as [ip|] eqn:SP; [|eexists; reflexivity].
+    apply (select_pivot_range D) in SP. destruct SP as [Hip Hnz].
+    apply (is_zero_false D SL) in Hnz. rewrite mget_lget in Hnz.
+    set (s1 := if i <? ip then s_swap_rows i ip s else s).
+    assert (H1 : wf m n (st_t s1) /\ get (st_t s1) i j <> rzero o).
+    { unfold s1. destruct (Nat.ltb_spec i ip).
+      - cbn [s_swap_rows st_t]. split; [apply wf_swap_rows; try assumption; lia|].
+        rewrite (get_swap_rows D m n) by (try assumption; lia). unfold swp. now rewrite Nat.eqb_refl.
+      - assert (ip = i) by lia. subst ip. now split. }
+    destruct H1 as [W1 HP1].
+    set (s2 := if i <? j then s_swap_cols i j s1 else s1).
+    assert (H2 : wf m n (st_t s2) /\ get (st_t s2) i i <> rzero o).
+    { unfold s2. destruct (Nat.ltb_spec i j).
+      - cbn [s_swap_cols st_t]. split; [now apply wf_swap_cols|].
+        rewrite (get_swap_cols D m n) by (try assumption; lia). unfold swp. now rewrite Nat.eqb_refl.
+      - assert (j = i) by lia. subst j. now split. }
+    destruct H2 as [W2 HP2].
+    set (v := rnunit (ed_unit D) (mget D (st_t s2) i i)).
+    destruct (sl_nunit_inv D SL (mget D (st_t s2) i i)) as [vi Hvi]. fold v in Hvi.
+    assert (H3 : exists s3, (if ris_one (ed_ring D) v then Some s2 else s_mul_col D i v s2) = Some s3 /\
+                            wf m n (st_t s3) /\ get (st_t s3) i i <> rzero o).
+    { destruct (ris_one (ed_ring D) v).
+      - exists s2. now split.
+      - rewrite (s_mul_col_eq D i v vi s2 Hvi). eexists. split; [reflexivity|]. cbn [st_t].
+        split; [now apply wf_mul_col|].
+        rewrite (get_mul_col D m n) by (try assumption; lia). rewrite Nat.eqb_refl.
+        intros E. destruct (mul_eq_0 D SL _ _ E) as [E1|E1]; [now apply HP2|].
+        apply (unit_neq_0 D SL v vi); [|exact E1]. apply (sl_inv D SL). exact Hvi. }
+    destruct H3 as (s3 & E3 & W3 & HP3). rewrite E3. cbn [sbind].
+    destruct (eliminate_at_total D SL NL GT m n i Hi ltac:(lia) s3 W3 HP3) as [s4 E4].
+    rewrite E4. cbn [sbind]. eexists; reflexivity.
+  Qed.
+
+  Lemma eliminate_all_loop_total k : forall j0 i s,
+    Nat.add j0 k = n -> i <= j0 -> SI s ->
+    exists s', eliminate_all_loop D dfl m n (seq j0 k) i s = Some s'.
+  Proof.
+    induction k as [|k IH]; intros j0 i s Hn Hij HS; cbn [seq eliminate_all_loop]; [eexists; reflexivity|].
+    destruct (Nat.leb_spec m i); [eexists; reflexivity|].
+    destruct (eliminate_step_total i j0 s ltac:(lia) Hij ltac:(lia) HS) as [sb E]. rewrite E. cbn [sbind].
+    apply IH; [lia|destruct (snd sb); lia|].
+    apply (eliminate_step_inv D SL dfl m n A f1 f2 f3 f4 i j0 s sb); try assumption; lia.
+  Qed.
+
+  Lemma process_total (Hpre : pre_ok D) (Htot : pre_total D) :
+    wf m n A -> exists s', process D dfl m n (init_state D m n A (f1, f2, f3, f4)) = Some s'.
+  Proof.
+    intros W. unfold process. destruct (mat_is_zero D _); [eexists; reflexivity|].
+    assert (E1 : exists s1, preprocess D m n (init_state D m n A (f1, f2, f3, f4)) = Some s1).
+    { unfold preprocess. unfold pre_total in Htot. destruct (ed_pre D) as [f|]; [|eexists; reflexivity].
+      cbn [init_state st_t st_p st_pinv st_q st_qinv].
+      destruct (Htot m n (if (if f1 then Some (id_mat D m) else None) then true else false)
+                     (if (if f2 then Some (id_mat D m) else None) then true else false) A W) as [[[h p] pi] E].
+      rewrite E. cbn [sbind]. eexists; reflexivity. }
+    destruct E1 as [s1 E1]. rewrite E1. cbn [sbind].
+    pose proof (preprocess_init_inv D SL m n A f1 f2 f3 f4 Hpre s1 W E1) as HS1.
+    destruct (eliminate_all_loop_total n 0 0 s1 ltac:(lia) ltac:(lia) HS1) as [s2 E2].
+    unfold eliminate_all. rewrite E2. cbn [sbind].
+    destruct (eliminate_all_diag D SL dfl m n s1 s2 (SI_wf s1 HS1) E2) as [r HD].
+    apply (diag_normalize_total D SL NL GT m n r s2 HD).
+  Qed.
+End RunTotal.
+
+(* ---------- the call returns ---------- *)
+Theorem snf_terminates {R : Type} (D : euc_dict R) :
+  snf_laws D -> norm_laws D -> gcdx_total D -> pre_ok D -> pre_total D ->
+  forall m n (A : lmat R) fl, wf m n A -> exists res, snf D (mk_dmat m n A) fl = Some res.
+Proof.
+  intros SL NL GT Hpre Htot m n A [[[f1 f2] f3] f4] W.
+  unfold snf, snf_run. cbv zeta. cbn [dm_m dm_n dm_rows].
+  destruct (process_total D SL NL GT m n A f1 f2 f3 f4 Hpre Htot W) as [s E]. rewrite E. cbn [sbind].
+  eexists; reflexivity.
+Qed.
+
+(* termination and specification together *)
+Theorem snf_total {R : Type} (D : euc_dict R) :
+  snf_laws D -> norm_laws D -> gcdx_total D -> pre_ok D -> pre_total D ->
+  forall m n (A : lmat R) f1 f2 f3 f4, wf m n A ->
+  exists res, snf D (mk_dmat m n A) (f1, f2, f3, f4) = Some res /\ snf_spec D m n A f1 f2 f3 f4 res.
+Proof.
+  intros SL NL GT Hpre Htot m n A f1 f2 f3 f4 W.
+  destruct (snf_terminates D SL NL GT Hpre Htot m n A (f1, f2, f3, f4) W) as [res E].
+  exists res. split; [exact E|]. exact (snf_total_partial D SL Hpre (default_fuel D) m n A f1 f2 f3 f4 res W E).
+Qed.
+
+(* closed instances: the dictionaries without preprocessing whose gcdx is proved to terminate *)
+Corollary Z_snf_total : forall m n (A : lmat Z) f1 f2 f3 f4, wf m n A ->
+  exists res, snf Z_dict (mk_dmat m n A) (f1, f2, f3, f4) = Some res /\ snf_spec Z_dict m n A f1 f2 f3 f4 res.
+Proof.
+  destruct (Zpre_term_laws None) as [NL GT]. exact (snf_total Z_dict Z_snf_laws NL GT I I).
+Qed.
+
+Corollary field_snf_total {F : Type} (o : ring_ops F) (finv : F -> F) :
+  ring_laws o -> rone o <> rzero o -> (forall a, a <> rzero o -> rmul o a (finv a) = rone o) ->
+  forall m n (A : lmat F) f1 f2 f3 f4, wf m n A ->
+  exists res, snf (field_dict o finv) (mk_dmat m n A) (f1, f2, f3, f4) = Some res /\
+              snf_spec (field_dict o finv) m n A f1 f2 f3 f4 res.
+Proof.
+  intros L H10 Hinv. destruct (field_term_laws o finv L H10 Hinv) as [NL GT].
+  exact (snf_total (field_dict o finv) (field_snf_laws o finv L H10 Hinv) NL GT I I).
+Qed.
+
+Corollary Q_snf_total : forall m n (A : lmat Qcanon.Qc) f1 f2 f3 f4, wf m n A ->
+  exists res, snf Q_dict (mk_dmat m n A) (f1, f2, f3, f4) = Some res /\ snf_spec Q_dict m n A f1 f2 f3 f4 res.
+Proof.
+  apply (field_snf_total Q_ring Qcanon.Qcinv Q_ring_laws).
+  - cbn. intros H. apply (f_equal Qcanon.this) in H. discriminate H.
+  - intros a Ha. cbn. now apply Qcanon.Qcmult_inv_r.
+Qed.
+
+Corollary F2_snf_total : forall m n (A : lmat bool) f1 f2 f3 f4, wf m n A ->
+  exists res, snf F2_dict (mk_dmat m n A) (f1, f2, f3, f4) = Some res /\ snf_spec F2_dict m n A f1 f2 f3 f4 res.
+Proof.
+  apply (field_snf_total F2_ring (fun a => a) F2_ring_laws).
+  - discriminate.
+  - intros a Ha. destruct a; [reflexivity|]. exfalso. now apply Ha.
+Qed.
+
+Corollary fp_snf_total (p : Z) : Znumtheory.prime p ->
+  forall m n (A : lmat (fp p)) f1 f2 f3 f4, wf m n A ->
+  exists res, snf (fp_dict p) (mk_dmat m n A) (f1, f2, f3, f4) = Some res /\ snf_spec (fp_dict p) m n A f1 f2 f3 f4 res.
+Proof.
+  intros Hp. exact (field_snf_total (fp_ring p) (fp_inv p) (fp_ring_laws p Hp) (fp_one_neq_zero p Hp) (fp_inv_r p Hp)).
+Qed.
